@@ -145,7 +145,8 @@ func (cl *Cluster) Dial(ctx context.Context, dst string, d *net.Dialer, t *tls.C
 
 // NewClient returns a cluster client over the fake cluster.
 func (cl *Cluster) NewClient(mod func(o *rueidis.ClientOption)) (rueidis.Client, error) {
-	o := rueidis.ClientOption{InitAddress: []string{cl.Addrs[0]}, DialCtxFn: cl.Dial, DisableRetry: true}
+	o := rueidis.ClientOption{InitAddress: []string{cl.Addrs[0]}, DialCtxFn: cl.Dial, DisableRetry: true,
+		RingScaleEachConn: 6, ReadBufferEachConn: 8192, WriteBufferEachConn: 8192}
 	if mod != nil {
 		mod(&o)
 	}
